@@ -3,6 +3,6 @@
 cd "$(dirname "$0")/.."
 for p in C01 C05 C06 C07 C09 C10 C11 C12 C13 C17 C19 C02 C03 C08 C14 C16 C18 C20; do
   if [ -f contracts/$(echo $p | tr A-Z a-z).py ]; then
-    PYVC_BUDGET=${PYVC_BUDGET:-12} python3-vt -m pyvc.check $p --no-bounded "$@" 2>&1 | grep "^property=\|^mutation\|^CHECKER" | tr '\n' ' '; echo
+    PYVC_BUDGET=${PYVC_BUDGET:-12} python3-vt -m pyvc.check $p --no-bounded "$@" 2>&1 | grep "^property=\|^mutation\|^CHECKER\|^STALE" | tr '\n' ' '; echo
   fi
 done
